@@ -598,7 +598,9 @@ def accept_connection(clock, events):
 
     def create(self):
         a = real_create(self)
-        a.start = lambda: None          # no thread: the harness thread runs the reactors
+        # no thread: the harness thread runs the reactors; the moment the thread WOULD start is recorded, because
+        # from then on the association / provider threads can emit notifications concurrently
+        a.start = lambda: log.append(("thread.start",))
         made.append(a)
         return a
 
